@@ -22,7 +22,7 @@ func main() {
 	twin.Rekey = rekey
 	twin.RunAll(r, nil, key, twin.Options{}, par.Opts{})
 	r.Set("exhaustive", true)
-	r.Set("rule", "programs = control-flow contexts nested around payload statements (destination x source x form), pool shown after every statement, 3 input tuples; enumerated completely per family (a: nesting, b: statement pairs, c: triple nesting, d: loop-variable capture, e: boolean expressions over 11 operand kinds x 4 operator forms x 6 use forms re-evaluated while operand values change); non-trivial = output lines not all equal; states = distinct program outputs; transitions = Show steps")
+	r.Set("rule", "programs = control-flow contexts nested around payload statements (destination x source x form; declarations without initialiser of 1-4 names over 9 types that are accumulated into), pool shown after every statement, 3 input tuples; enumerated completely per family (a: nesting, b: statement pairs, c: triple nesting, d: loop-variable capture, e: boolean expressions over 11 operand kinds x 4 operator forms x 6 use forms re-evaluated while operand values change); non-trivial = output lines not all equal; states = distinct program outputs; transitions = Show steps")
 	r.Finish()
 }
 
